@@ -151,6 +151,11 @@ func runC04(c *Ctx) {
 				k.Config.Processes = g.Address(cfgVals[r.Intn(len(cfgVals))])
 			}
 		}
+		if r.Chance(1, 25) {
+			// the mode field is a plain byte: values outside the three named rule sets must be refused or simulated, never crash
+			k.Config.Mode = g.SimulatorMode([]int{3, 4, 7, 127, 128, 255}[r.Intn(6)])
+			c.Inc("configs_with_mode_outside_the_enum")
+		}
 		cfg := k.Config
 		c.Inc("configs_tried")
 		var s g.ReportingSimulator
@@ -196,6 +201,10 @@ func runC04(c *Ctx) {
 			}
 			if nw <= 4 && r.Chance(1, 12) {
 				w.Start = l + r.Intn(2*m) // an entry point outside the code
+				if r.Chance(1, 2) {
+					w.Start = -1 - r.Intn(2*m+2) // Start is a plain int: negative values as well
+					c.Inc("warriors_with_negative_entry_point")
+				}
 			}
 			if nw >= 3 && nw <= 4 && i > 0 && r.Chance(1, 6) {
 				w.NeverSpawn = true
@@ -208,7 +217,7 @@ func runC04(c *Ctx) {
 			for _, w := range k.Warriors {
 				gw, e := s.AddWarrior(&g.WarriorData{Code: toGCode(w.Code), Start: w.Start})
 				if e != nil {
-					if w.Start >= len(w.Code) {
+					if w.Start >= len(w.Code) || w.Start < 0 {
 						// an entry point outside the code may be refused; the simulator must stay sound
 						c.Inc("addwarrior_refused_start_outside_code")
 						continue
